@@ -228,7 +228,7 @@ Proof. vm_compute. repeat split. Qed.
 Lemma Known_C08_text_occurrences_witness :
   let q := Q 0 TText [CText [97%N] false] None false None in
   Known_C08_text_occurrences q = true
-  /\ run_machine W q = Some [[IText 0 0 1]; [IText 0 7 8]; [IText 1 0 1]; [IText 1 7 8]]
+  /\ run_machine W q = Some [[IText 0 0 1]; [IText 0 9 10]; [IText 1 0 1]]
   /\ sem W [] q = [[IText 0 0 1]].
 Proof. vm_compute. repeat split. Qed.
 
